@@ -649,3 +649,20 @@ Definition c16_run (l : list histcase) : list N * list N * list (N * N) :=
   (idx_filter hist_agree l 0, idx_filter c16_ok l 0, idx_known f15_match c16_ok l 0 15).
 Definition all3_ok (h : histcase) : bool := all2_ok h && c13_ok h && c14_ok h && c16_ok h.
 Definition all3_run := hist_run all3_ok.
+
+(* ------------------------------------------------------------------ *)
+(* C15 at the session level: a stored value that does not decode (altered, or shorter than
+   12 bytes, including empty) is reported as corrupt -- the call that loaded it fails (or, for
+   AdoptSession, warns) -- and never treated as absent or used. *)
+Definition call_failed (t : list tev) (i : N) : bool :=
+  existsb (fun e => match e with
+                    | TRet j _ (RetErr er) _ _ _ => (j =? i) && negb (er =? 0)
+                    | TRet j _ (RetAdopt n f) _ _ _ => (j =? i) && (negb (n =? 0) || negb (f =? 0))
+                    | _ => false end) t.
+Definition c15s_ok (h : histcase) : bool :=
+  let t := trace_of h in
+  no_panic t &&
+  forallb (fun e => match e with
+                    | TEv i (QLoad k) (AVal (Some v)) => genuine_rec v || call_failed t i
+                    | _ => true end) t.
+Definition c15s_run := hist_run c15s_ok.
